@@ -1,0 +1,15 @@
+//go:build !verif
+// +build !verif
+
+package tengo
+
+// verifEnabled is false in normal builds: every `if verifEnabled && ...`
+// branch is removed by the compiler. The verification hooks live in
+// verif_on.go (build tag "verif").
+const verifEnabled = false
+
+func verifProbe(*VM) {}
+
+func verifKeepDead() bool { return false }
+
+func verifLogDCE([]byte, map[int]int) {}
